@@ -245,11 +245,23 @@ pub fn new_recording(sh: &Rc<Shared>) -> Box<dyn SatSolver> {
         *n
     };
     sh.log.borrow_mut().push(format!("{} new", id));
+    // the backend behind the recorder: CaDiCaL, or - when a mode set EXTERNAL_BACKEND for the current case - an
+    // external process (the verified reference solver printing PARTIAL models: variables it leaves unassigned come
+    // back as None, which CaDiCaL never does for a variable it has seen)
+    let inner: Box<dyn SatSolver> = match EXTERNAL_BACKEND.with(|b| b.borrow().clone()) {
+        Some((path, opts)) => Box::new(crustabri::sat::ExternalSatSolver::new(path, opts)),
+        None => Box::<CadicalSolver>::default(),
+    };
     Box::new(Recording {
-        inner: Box::<CadicalSolver>::default(),
+        inner,
         sh: Rc::clone(sh),
         id,
     })
+}
+
+thread_local! {
+    /// (program, options) of the external solver used as backend of the recording solver, or None for CaDiCaL
+    pub static EXTERNAL_BACKEND: RefCell<Option<(String, Vec<String>)>> = RefCell::new(None);
 }
 
 /// A factory closure over shared state, usable wherever crustabri expects
